@@ -156,7 +156,12 @@ class Core:
         if c < 0.71:
             return [r.choice(['pass', '0', "'doc'", 'None', '1.5', 'True'])]
         if c < 0.72 and depth < 3:
-            test = r.choice(['__debug__', '__debug__ is True', '__debug__ is not False', '__debug__ == True'])
+            test = r.choice(['__debug__', '__debug__ is True', '__debug__ is not False', '__debug__ == True', '__debug__ is False',
+                             '__debug__ != True', '__debug__ is not True', '__debug__ == False'])
+            bools = [v for v, t in env.items() if t == 'bool' and not v.startswith('k')]
+            if bools and r.random() < 0.3:
+                # compared with a name that holds a Boolean (what a hoisted True / False looks like)
+                test = '__debug__ %s %s' % (r.choice(['is', 'is not', '==', '!=']), r.choice(bools))
             return ['if %s:' % test] + [ind + l for l in self.block(cp(env), genv, depth + 1, in_func, in_loop, r.randint(1, 2))]
         if c < 0.745 and depth < 2:
             v = self.fresh('l' if in_func else 'g')
